@@ -23,7 +23,9 @@ CONSTANTS Modified,     \* existing pages the transaction changes (they are jour
           Appended,     \* pages the transaction adds beyond the original end of the file (never journaled: recovery
                         \* truncates the file back to the size recorded in the journal header)
           Mode,         \* "DELETE" | "TRUNCATE" | "PERSIST"
-          NoSync        \* synchronous=OFF: headers carry magic and nRec = -1 (unknown) from the start
+          NoSync,       \* synchronous=OFF: headers carry magic and nRec = -1 (unknown) from the start
+          HdrChunks     \* write calls one journal header takes: SQLite fills the header's SECTOR with copies of the
+                        \* header, min(page size, sector size) bytes per call -- 1 unless the sector is larger than the page
 
 VARIABLES ph,          \* "active" | "committing" | "finalized"
           jexists,     \* the -journal file exists
@@ -33,13 +35,14 @@ VARIABLES ph,          \* "active" | "committing" | "finalized"
           dbnew,       \* database pages carrying the new content
           dbtorn,      \* database pages half overwritten
           dbapp,       \* appended pages present in the file (wholly or partly)
-          dead         \* the writer process died (its locks are gone)
+          dead,        \* the writer process died (its locks are gone)
+          hch          \* chunks of the last header written so far (HdrChunks when complete)
 
-jvars == <<ph, jexists, jfirstfull, segs, partial, dbnew, dbtorn, dbapp, dead>>
+jvars == <<ph, jexists, jfirstfull, segs, partial, dbnew, dbtorn, dbapp, dead, hch>>
 
 JInit ==
     /\ ph = "active" /\ jexists = FALSE /\ jfirstfull = FALSE /\ segs = <<>> /\ partial = FALSE
-    /\ dbnew = {} /\ dbtorn = {} /\ dbapp = {} /\ dead = FALSE
+    /\ dbnew = {} /\ dbtorn = {} /\ dbapp = {} /\ dead = FALSE /\ hch = HdrChunks
 
 Last == segs[Len(segs)]
 SeqSet(s) == {s[i] : i \in 1..Len(s)}
@@ -59,59 +62,68 @@ Covered == CoveredFrom(1)
 
 \* pwrite of a new header sector (journal creation, or after a spill); torn: only half of it
 JHdrWrite(torn) ==
-    /\ ~dead /\ ph = "active" /\ ~partial
+    /\ ~dead /\ ph = "active" /\ ~partial /\ hch = HdrChunks
     \* a further header only after a spill: the previous segment was closed (synced); bounded number of segments
     /\ (IF segs = <<>> THEN TRUE ELSE Last.magic /\ Len(segs) <= Cardinality(Modified) + 1)
     /\ jexists' = TRUE
-    /\ jfirstfull' = IF segs = <<>> THEN ~torn ELSE jfirstfull
+    /\ hch' = 1
+    /\ jfirstfull' = IF segs = <<>> THEN (~torn /\ HdrChunks = 1) ELSE jfirstfull
     \* the magic is in the first 8 bytes: a torn header write still carries it
     /\ segs' = Append(segs, [magic |-> NoSync, nrec |-> IF NoSync THEN -1 ELSE 0, recs |-> <<>>])
     /\ dead' = torn                                     \* a torn write is the process dying in the middle of it
     /\ UNCHANGED <<ph, partial, dbnew, dbtorn, dbapp>>
 
+\* the remaining write calls of a header whose sector is larger than the page: copies of the header chunk
+JHdrPad(torn) ==
+    /\ ~dead /\ ph = "active" /\ segs # <<>> /\ ~partial /\ hch < HdrChunks
+    /\ hch' = IF torn THEN hch ELSE hch + 1
+    /\ jfirstfull' = IF Len(segs) = 1 /\ ~torn /\ hch + 1 = HdrChunks THEN TRUE ELSE jfirstfull
+    /\ dead' = torn
+    /\ UNCHANGED <<ph, jexists, segs, partial, dbnew, dbtorn, dbapp>>
+
 \* the three pwrites of one page record (page number, content, checksum); torn: stops in between
 JRec(p, torn) ==
-    /\ ~dead /\ ph = "active" /\ segs # <<>> /\ ~partial
+    /\ ~dead /\ ph = "active" /\ segs # <<>> /\ ~partial /\ hch = HdrChunks
     /\ p \in Modified /\ p \notin Journaled
     /\ IF torn THEN partial' = TRUE /\ UNCHANGED segs
        ELSE segs' = [segs EXCEPT ![Len(segs)].recs = Append(@, p)] /\ UNCHANGED partial
     /\ dead' = torn
-    /\ UNCHANGED <<ph, jexists, jfirstfull, dbnew, dbtorn, dbapp>>
+    /\ UNCHANGED <<ph, jexists, jfirstfull, dbnew, dbtorn, dbapp, hch>>
 
 \* pwrite of magic + record count into the header of the last segment (after fsync); torn: the magic is incomplete
 JHdrCount(torn) ==
-    /\ ~dead /\ ph = "active" /\ segs # <<>> /\ ~partial /\ ~NoSync
+    /\ ~dead /\ ph = "active" /\ segs # <<>> /\ ~partial /\ ~NoSync /\ hch = HdrChunks
     /\ ~Last.magic
     /\ IF torn THEN UNCHANGED segs
        ELSE segs' = [segs EXCEPT ![Len(segs)].magic = TRUE, ![Len(segs)].nrec = Len(Last.recs)]
     /\ dead' = torn
-    /\ UNCHANGED <<ph, jexists, jfirstfull, partial, dbnew, dbtorn, dbapp>>
+    /\ UNCHANGED <<ph, jexists, jfirstfull, partial, dbnew, dbtorn, dbapp, hch>>
 
 \* pwrite of a database page: write-ahead rule
 DbWrite(p, torn) ==
-    /\ ~dead /\ ph \in {"active", "committing"}
+    /\ ~dead /\ ph \in {"active", "committing"} /\ hch = HdrChunks
     /\ p \in Covered
     /\ IF torn THEN dbtorn' = dbtorn \cup {p} /\ dbnew' = dbnew \ {p}
        ELSE dbnew' = dbnew \cup {p} /\ dbtorn' = dbtorn \ {p}
     /\ dead' = torn
-    /\ UNCHANGED <<ph, jexists, jfirstfull, segs, partial, dbapp>>
+    /\ UNCHANGED <<ph, jexists, jfirstfull, segs, partial, dbapp, hch>>
 
 \* pwrite of a page beyond the original end of the file: allowed once the first journal header (which records the
 \* original size) is on disk with its magic
 DbAppend(p, torn) ==
     /\ ~dead /\ ph \in {"active", "committing"}
     /\ p \in Appended
-    /\ segs # <<>> /\ segs[1].magic
+    /\ segs # <<>> /\ segs[1].magic /\ hch = HdrChunks
     /\ dbapp' = dbapp \cup {p}
     /\ dead' = torn
-    /\ UNCHANGED <<ph, jexists, jfirstfull, segs, partial, dbnew, dbtorn>>
+    /\ UNCHANGED <<ph, jexists, jfirstfull, segs, partial, dbnew, dbtorn, hch>>
 
 \* commit phase 1: everything journaled and synced, the remaining pages go to the database file
 StartCommit ==
-    /\ ~dead /\ ph = "active" /\ segs # <<>> /\ Last.magic /\ ~partial
+    /\ ~dead /\ ph = "active" /\ segs # <<>> /\ Last.magic /\ ~partial /\ hch = HdrChunks
     /\ Journaled = Modified
     /\ ph' = "committing"
-    /\ UNCHANGED <<jexists, jfirstfull, segs, partial, dbnew, dbtorn, dbapp, dead>>
+    /\ UNCHANGED <<jexists, jfirstfull, segs, partial, dbnew, dbtorn, dbapp, dead, hch>>
 
 \* commit point: the journal is deleted / truncated / its header zeroed (torn: half of the zeros: the magic is gone)
 Finalize ==
@@ -120,12 +132,12 @@ Finalize ==
          [] Mode = "TRUNCATE" -> segs' = <<>> /\ jfirstfull' = FALSE /\ UNCHANGED jexists
          [] Mode = "PERSIST"  -> segs' = [segs EXCEPT ![1].magic = FALSE] /\ UNCHANGED <<jexists, jfirstfull>>
     /\ ph' = "finalized"
-    /\ UNCHANGED <<partial, dbnew, dbtorn, dbapp, dead>>
+    /\ UNCHANGED <<partial, dbnew, dbtorn, dbapp, dead, hch>>
 
-Crash == ~dead /\ dead' = TRUE /\ UNCHANGED <<ph, jexists, jfirstfull, segs, partial, dbnew, dbtorn, dbapp>>
+Crash == ~dead /\ dead' = TRUE /\ UNCHANGED <<ph, jexists, jfirstfull, segs, partial, dbnew, dbtorn, dbapp, hch>>
 
 JNext ==
-    \/ \E t \in BOOLEAN : JHdrWrite(t) \/ JHdrCount(t)
+    \/ \E t \in BOOLEAN : JHdrWrite(t) \/ JHdrCount(t) \/ JHdrPad(t)
     \/ \E p \in Modified, t \in BOOLEAN : JRec(p, t) \/ DbWrite(p, t)
     \/ \E p \in Appended, t \in BOOLEAN : DbAppend(p, t)
     \/ StartCommit \/ Finalize \/ Crash
